@@ -4,6 +4,7 @@ import (
 	"fmt"
 	"go/ast"
 	"go/constant"
+	"go/token"
 	"go/types"
 	"sort"
 	"strings"
@@ -277,8 +278,74 @@ func checkC12(c *Ctx) {
 		okW = len(opens) > 0 && exclInit && truncGuarded && !outside && len(wr) > 0 && len(cl) > 0
 		det = fmt.Sprintf("the output file must be opened only inside the close function (after the whole buffer exists), with O_EXCL unless cfg.Force (excl=%v, trunc-only-under-Force=%v, opened-early=%v), and Write/Close must be checked", exclInit, truncGuarded, outside)
 		c12NoDroppedErrors(c, l, "errors.propagate")
+		// path-sensitive folding of the open flags: the value that reaches
+		// the first os.OpenFile, with and without --force
+		cf := newCaseFn(c, l)
+		forceKey := ""
+		for k := range cf.atoms() {
+			if strings.HasSuffix(k, ".Force") {
+				forceKey = k
+			}
+		}
+		for _, force := range []bool{false, true} {
+			okF := forceKey != ""
+			detF := "no test of cfg.Force found"
+			if okF {
+				path, _ := cf.trace(cf.g.Entry, map[string]bool{forceKey: force})
+				// the flag argument of the first OpenFile on the path
+				var flagVar types.Object
+				var flagConst int64 = -1
+				upto := len(path)
+				for i, id := range path {
+					if call, isOpen := opens[id]; isOpen && len(call.Args) == 3 {
+						flagVar = identObj(li, call.Args[1])
+						if tv := li.Types[call.Args[1]]; tv.Value != nil {
+							flagConst, _ = constant.Int64Val(tv.Value)
+						}
+						upto = i
+						break
+					}
+				}
+				val, known := flagConst, flagConst >= 0
+				if flagVar != nil {
+					known = false
+					for _, id := range path[:upto] {
+						as, isAs := cf.g.Nodes[id].N.(*ast.AssignStmt)
+						if !isAs || len(as.Lhs) != 1 || len(as.Rhs) != 1 || identObj(li, as.Lhs[0]) != flagVar {
+							continue
+						}
+						tv := li.Types[as.Rhs[0]]
+						if tv.Value == nil {
+							known = false
+							continue
+						}
+						r, _ := constant.Int64Val(tv.Value)
+						switch as.Tok {
+						case token.DEFINE, token.ASSIGN:
+							val, known = r, true
+						case token.OR_ASSIGN:
+							val |= r
+						case token.AND_ASSIGN:
+							val &= r
+						case token.AND_NOT_ASSIGN:
+							val &^= r
+						case token.XOR_ASSIGN:
+							val ^= r
+						default:
+							known = false
+						}
+					}
+				}
+				excl, trunc, create := val&flag("O_EXCL") != 0, val&flag("O_TRUNC") != 0, val&flag("O_CREATE") != 0
+				okF = known && create && ((force && trunc && !excl) || (!force && excl && !trunc))
+				detF = fmt.Sprintf("flags reaching os.OpenFile with Force=%v: known=%v O_CREATE=%v O_EXCL=%v O_TRUNC=%v", force, known, create, excl, trunc)
+			}
+			c.check("writer.open-flags", fmt.Sprintf("%s/force=%v", w.Name, force), w.Decl.Pos(), okF,
+				"the output file is created exclusively (O_CREATE|O_EXCL, no O_TRUNC) unless --force, and with --force an existing file is replaced entirely (O_TRUNC, no O_EXCL) — otherwise a shorter export keeps the tail of the old file; "+detF)
+		}
 	}
 	c.check("writer.delayed-exclusive-open", w.Name, w.Decl.Pos(), okW, det)
+	checkYAMLBytesBinary(c)
 
 	jsonImporterKeyRule(c)
 	c.expect("registry.data-encoding-concrete", 6)
